@@ -113,7 +113,7 @@ func emitLeafURLCode(repo string) (string, error) {
 		libMut: map[string]string{"(*bytes.Buffer).WriteString": "Lib.Buffer_WriteString"},
 		skip: map[string]string{"matchHeader": "needs the HeaderMatcher the leaf points to (C09's own tie is Gen/HeaderCode.lean)",
 			"Static": "not a method of baseLeaf's own logic", "SetHeaderMatcher": "stores a pointer to another object", "setOptionalLeaf": "stores an interface value",
-			"getParent": "returns an interface value", "Handler": "returns an interface value", "getSegment": "returns a pointer", "Route": "renders the route (C06's subject)"},
+			"getParent": "returns an interface value", "Handler": "returns an interface value", "getSegment": "returns a pointer", "Route": "the route's String(), translated on its own in Gen/RouteStringCode.lean (Props/C06Code)"},
 	})
 }
 
